@@ -49,7 +49,8 @@ func genC04() error {
 		}
 		return false
 	}
-	var cb, mb, mf strings.Builder
+	var cb, mb, mf, mn, mv strings.Builder
+	mdTables := map[string][]string{}
 	var cNot, mNot []string
 	// ---- constants
 	constIface := cp.Scope().Lookup("Constant").Type().Underlying().(*types.Interface)
@@ -153,6 +154,12 @@ func genC04() error {
 		nm++
 		fmt.Fprintf(&mb, "\tcase *metadata.%s:\n\t\tif x == nil {\n\t\t\treturn true\n\t\t}\n", name)
 		fmt.Fprintf(&mf, "\tcase *metadata.%s:\n\t\tif x == nil {\n\t\t\treturn nil\n\t\t}\n", name)
+		fmt.Fprintf(&mn, "\tcase *metadata.%s:\n\t\t_ = x\n", name)
+		fmt.Fprintf(&mv, "\tcase *metadata.%s:\n\t\t_ = x\n", name)
+		vstep := func(n string, body string) {
+			fmt.Fprintf(&mn, "\t\tn += %s\n", n)
+			fmt.Fprintf(&mv, "\t\tif k < %s {\n\t\t\t%s\n\t\t\treturn\n\t\t}\n\t\tk -= %s\n", n, body, n)
+		}
 		if hasID {
 			fmt.Fprintf(&mb, "\t\tif !w.enterMD(x, int64(x.MetadataID)) {\n\t\t\treturn true\n\t\t}\n")
 		}
@@ -191,16 +198,40 @@ func genC04() error {
 					}
 					continue
 				}
-				if _, basic := ft.Underlying().(*types.Basic); !basic {
+				if b, basic := ft.Underlying().(*types.Basic); !basic {
 					mNot = append(mNot, name+"."+f.Name())
+				} else if f.Name() != "Distinct" {
+					if en, ok := ft.(*types.Named); ok && en.Obj().Pkg() != nil && en.Obj().Pkg().Path() == repoMod+"/ir/enum" {
+						tb := en.Obj().Name()
+						var ms []string
+						for _, m := range enumMembers(en) {
+							if !strings.HasSuffix(m, "Zero") && !strings.HasSuffix(m, "None") {
+								ms = append(ms, m)
+							}
+						}
+						if len(ms) > 0 {
+							mdTables[tb] = ms
+							vstep(fmt.Sprintf("hGenCap(len(hMDM_%s))", tb), fmt.Sprintf("x.%s = hMDM_%s[hGenPick(k, len(hMDM_%s))]", f.Name(), tb, tb))
+						}
+					} else {
+						switch {
+						case b.Kind() == types.Bool:
+							vstep("1", "x."+f.Name()+" = true")
+						case b.Kind() == types.String:
+							vstep("1", "x."+f.Name()+" = \"v\"")
+						case b.Info()&types.IsInteger != 0:
+							vstep("1", "x."+f.Name()+" = 7")
+						}
+					}
 				}
 			}
 		}
 		mb.WriteString("\t\treturn true\n")
+		mv.WriteString("\t\treturn\n")
 		mf.WriteString("\t\treturn r\n")
 	}
 	var sb strings.Builder
-	sb.WriteString("//go:build verif\n\n// Code generated by vcheck gen (L2) from go/types of /repo; DO NOT EDIT.\n\npackage asm\n\nimport (\n\t\"github.com/llir/llvm/ir/constant\"\n\t\"github.com/llir/llvm/ir/metadata\"\n)\n\n")
+	sb.WriteString("//go:build verif\n\n// Code generated by vcheck gen (L2) from go/types of /repo; DO NOT EDIT.\n\npackage asm\n\nimport (\n\t\"github.com/llir/llvm/ir/constant\"\n\t\"github.com/llir/llvm/ir/enum\"\n\t\"github.com/llir/llvm/ir/metadata\"\n)\n\n")
 	sb.WriteString("// hWalkConst descends into the sub-terms of a constant; false if a is not one\n// of the constant kinds known to the generator.\nfunc hWalkConst(w *hWalk, a interface{}) bool {\n\tswitch x := a.(type) {\n")
 	sb.WriteString(cb.String())
 	sb.WriteString("\t}\n\treturn false\n}\n\n")
@@ -210,6 +241,26 @@ func genC04() error {
 	sb.WriteString("// hMDFields lists the values of the fields of a metadata node that can hold\n// other metadata (direct children, nil fields left out).\nfunc hMDFields(a interface{}) []interface{} {\n\tvar r []interface{}\n\tswitch x := a.(type) {\n")
 	sb.WriteString(mf.String())
 	sb.WriteString("\t}\n\treturn r\n}\n\n")
+	var tbs []string
+	for tb := range mdTables {
+		tbs = append(tbs, tb)
+	}
+	sort.Strings(tbs)
+	for _, tb := range tbs {
+		fmt.Fprintf(&sb, "var hMDM_%s = []enum.%s{", tb, tb)
+		for i, m := range mdTables[tb] {
+			if i > 0 {
+				sb.WriteString(", ")
+			}
+			sb.WriteString("enum." + m)
+		}
+		sb.WriteString("}\n")
+	}
+	sb.WriteString("\n// hMDNumVary returns the number of single-field variations (bool set, string\n// set, integer set, enum member chosen) of a metadata node.\nfunc hMDNumVary(a interface{}) int {\n\tn := 0\n\tswitch x := a.(type) {\n")
+	sb.WriteString(mn.String())
+	sb.WriteString("\t}\n\treturn n\n}\n\n// hMDVary applies variation k (0 <= k < hMDNumVary(a)).\nfunc hMDVary(a interface{}, k int) {\n\tswitch x := a.(type) {\n")
+	sb.WriteString(mv.String())
+	sb.WriteString("\t}\n}\n\n")
 	sort.Strings(cNot)
 	sort.Strings(mNot)
 	fmt.Fprintf(&sb, "// %d constant kinds, %d metadata node kinds.\n// constant fields not descended into: %s\n// metadata fields not descended into: %s\n", nc, nm, strings.Join(cNot, ", "), strings.Join(mNot, ", "))
